@@ -63,3 +63,24 @@ def post(value) -> bool:
     if _TWIN:
         return False
     return bool(value)
+
+
+def concrete_int(x, lo: int, hi: int) -> int:
+    """Returns x as a concrete Python int (lo <= x <= hi).  Under symbolic execution the
+    comparisons fork the path, so the returned value is safe to hand to a C boundary
+    (file.write, os.*, pathlib ...).  Plain identity on concrete ints."""
+    for i in range(lo, hi + 1):
+        if x == i:
+            return i
+    raise ValueError('concrete_int: %r not in [%d, %d]' % (x, lo, hi))
+
+
+def pick(seq, idx):
+    """seq[idx] with the index made concrete first (see concrete_int)."""
+    return seq[concrete_int(idx, 0, len(seq) - 1)]
+
+
+def concrete_bool(b) -> bool:
+    if b:
+        return True
+    return False
